@@ -185,6 +185,8 @@ def run(ctx):
                 for rep in range(2 if quick else 6):
                     add(A.run_ppo_cont(zoo, A.cgroup(A.LO_A, A.HI_A, "none", req, False, ch), training=training, squash=squash))
             add(A.run_ppo_cont(zoo, A.cgroup(A.LO_A, A.HI_A, "none", req, True, [rows[0]]), training=training, squash=squash))
+            for ch in list(A.chunks(rows, 25))[:(2 if quick else None)]:          # the policy after mutations (no clone since the last one)
+                add(A.run_ppo_cont(zoo, A.cgroup(A.LO_A, A.HI_A, "none", req, False, ch), training=training, squash=squash, evolved=True))
             # one-dimensional Box: rows of the B grid (the exact-mode rows carry the raw outputs; only bounds are demanded)
             rows1 = G.cont.get((tuple(A.LO_B), tuple(A.HI_B), "none", "exact", False), [])
             add(A.run_ppo_cont(zoo, A.cgroup(A.LO_B, A.HI_B, "none", req, False, [A.crow(x["x"], [0]) for x in rows1]),
